@@ -7,9 +7,9 @@ Open Scope N_scope.
 
 (* Every step of every actor — same state in, same label — has the same outcome (next state,
    callbacks, result) in both flavours, except at exactly these points: a get-ring flush that finds
-   SYNC_POLICY_QUEUE_CAP batches already queued (the sync policy drops, the async one queues), a
-   remove() whose Delete finds the insert buffer full (sync returns an error, async awaits), and the
-   two stop handshakes of close() (sync rendezvous, async buffered message). *)
+   SYNC_POLICY_QUEUE_CAP batches already queued (the sync policy drops, the async one queues), and
+   the two stop handshakes of close() (sync rendezvous, async buffered message).  (Before fix 7541841
+   a remove() finding the insert buffer full was a third point: sync gave up, async awaits.) *)
 Theorem C19_flavours_agree_step_by_step :
   forall c st l,
   flavour_insensitive c st l -> cstep (with_flavour c true) st l = cstep (with_flavour c false) st l.
